@@ -118,6 +118,9 @@ type gen struct {
 	assignErr error
 	frameProps []string
 	opaques map[string]*opaqueDef
+	inAxiom bool
+	rangeSeen string
+	rangeSeenSort string
 	onStore func(g *gen, ins *ssa.Store, addr Val, v Val) // extra obligations at stores (property-specific sweeps)
 	onAccess func(g *gen, key string, pos token.Pos, what string)
 	pendingKeys map[string]bool // heap keys a spawned, not yet joined goroutine may write
@@ -1477,7 +1480,7 @@ func (g *gen) assumeFrame(key string) {
 	if cur == init || !g.declared[init] {
 		return
 	}
-	if strings.HasPrefix(key, "LOG|") || strings.HasPrefix(key, "G|") || key == "NOW" {
+	if strings.HasPrefix(key, "LOG|") || strings.HasPrefix(key, "G|") || strings.HasPrefix(key, "RG|") || key == "NOW" {
 		return
 	}
 	o := g.freshName("fo")
